@@ -265,8 +265,7 @@ From Persim Require Proofs.LandArithEndsP.
    other) the repaired code's sum evaluates, has strictly increasing abscissae again, spans [min first_x, max last_x],
    and is the pointwise sum of the two functions at EVERY t (pl_eval is 0 outside the range of its list, so this
    includes the jumps at non-zero end ordinates).  Empty depths are excluded: the real code raises IndexError on them
-   (a[0][0] in union_crit_pairs) whereas the model evaluates ([] + b = b moved to first ordinate 0,
-   LandArithEndsP.add_empty_depth_model), so the model is not faithful there. *)
+   (a[0][0] in union_crit_pairs) and the model returns its error value (add_empty_depth_is_error below). *)
 Theorem add_first_ordinate_pointwise : forall a b : list pt,
   a <> [] -> b <> [] -> incr a -> incr b -> ends_compatible a b ->
   exists c, add_depth Fixed a b = Some c /\ c <> [] /\ incr c /\
@@ -316,3 +315,9 @@ Example ends_compatible_satisfiable :
   a <> [] /\ b <> [] /\ incr a /\ incr b /\ ends_compatible a b /\
   add_depth Fixed a b = Some [(0, 1); (2, 6 # 2); (3, 6 # 6); (5, 144 # 36)].
 Proof. exact LandArithEndsP.ends_compatible_instance. Qed.
+
+(* an explicitly empty depth (only constructible through critical_pairs=[[], ...]) is rejected by the model exactly as
+   by the code (IndexError): the sum of landscapes containing one is an error value, never a wrong landscape *)
+Theorem add_empty_depth_is_error : forall v b, add_depth v [] b = None /\ add_depth v b [] = None.
+Proof. exact LandArithEndsP.add_empty_depth_raises. Qed.
+Print Assumptions add_empty_depth_is_error.
